@@ -289,6 +289,8 @@ def transformer_replayer(ctx, world, method, tr, info, h0, arg_vals, exits):
     def rp(model, obl, cover):
         import numpy as np
         from gscrib.geometry.transformer import CoordinateTransformer
+        # numpy.linalg.inv raising LinAlgError is an assumed external behaviour chosen by a free boolean, not by the matrices of the model: not replayable
+        if obl.exit is not None and obl.exit.kind == "raise" and obl.exit.payload == "LinAlgError": return None
         real = CoordinateTransformer()
         o = h0[tr.oid]
         real._current_transform = _real_transform(world, model, h0, o["_current_transform"])
